@@ -97,7 +97,7 @@ WriteVal(kind, old, v) == CASE kind = "assign" -> v [] kind = "add" -> old + v [
 Apply(tree, depth, a) ==
   CASE a.op = "ref" ->                      \* getPayloadRef(*pt), nothing written
          Outcome(Ensure(tree, a.pt, depth), "ok")
-    [] a.op = "write" ->                    \* r = getPayloadRef(*pt) ; r <<= v | r += v | r *= v
+    [] a.op \in {"write", "poswrite"} ->    \* r = getPayloadRef(*pt) ; r <<= v | r += v | r *= v      (poswrite: the position route, p = f.getPositionRef(c) ; f[p] <<= v | f[p] += v | f[p] *= v)
          LET t1  == Ensure(tree, a.pt, depth)
              old == AtPath(t1, a.pt).v
          IN Outcome(PutPath(t1, a.pt, Leaf(WriteVal(a.kind, old, a.v))), "ok")
@@ -121,6 +121,7 @@ LegalSP(e, c, sp) == sp = -1 \/ (sp = 0 /\ Len(e) > 0) \/ (sp > 0 /\ sp < Len(e)
 Enabled(tree, depth, a) ==
   CASE a.op \in {"ref"}   -> Len(a.pt) \in 1..depth /\ (a.sp = -1 \/ (Len(a.pt) = 1 /\ tree.k = "F" /\ LegalSP(tree.e, a.pt[1], a.sp)))     \* a search-start shortcut at the top level only
     [] a.op = "write"      -> Len(a.pt) = depth
+    [] a.op = "poswrite"   -> Len(a.pt) = depth /\ SubSeq(a.pt, 1, depth - 1) \in LeafPaths(tree, depth)       \* the leaf fiber is reached first, then addressed by position
     [] a.op = "hwrite"     -> Len(a.pt) = depth /\ AtPath(tree, a.pt).k = "L"
     [] a.op = "get"        -> /\ a.path \in FiberPaths(tree, depth) /\ Len(a.path) + Len(a.pt) <= depth /\ Len(a.pt) >= 1
                               /\ LegalSP(FiberAt(tree, a.path).e, a.pt[1], a.sp) /\ (a.sp # -1 => Len(a.pt) = 1)
